@@ -25,6 +25,40 @@ PROPS = {
             "accumulated difficulty of every branch of the unstable tree < 2^128 and branch lengths < 2^64 (BlockTree::wf)",
         ],
     ),
+    "C20": dict(
+        verus_units=["ledger", "core"],
+        technique="Verus contracts on the real bodies of outpoints_cache.rs (insert_outpoints, OutPointsCache::remove with its nested fn, the getters) "
+                  "and next_block_headers.rs (all six methods), with representation invariants; history lemmas (induction over any sequence of "
+                  "insertions and removals) over the two contracts",
+        level_text="PARTIAL, unbounded. Decided for the cached transaction outputs, their reference counts, the per-block address deltas and the "
+                   "announced headers: (ledger) insert_outpoints adds exactly one reference per spending input and per created output of the block "
+                   "(refs_block, written from the statement) and records the block's two deltas under its hash, or changes nothing when an input "
+                   "cannot be found; OutPointsCache::remove releases exactly those references, deletes an entry exactly when its last reference goes, "
+                   "drops the block's deltas and never traps for a block that is held; lemma_insert_keeps_exact / lemma_held_block_can_be_removed / "
+                   "lemma_remove_keeps_exact / lemma_no_leak_no_dangle lift this to: after ANY history the count of every outpoint equals the number "
+                   "of references from the blocks currently held, an entry exists iff some held block references it. (core) NextBlockHeaders: the "
+                   "per-height and per-hash indexes stay in step (nbh_wf) under insert / remove / remove_until_height, remove drops exactly the "
+                   "arrived block's header and never traps, remove_until_height drops exactly the headers at or below the stable height, "
+                   "get_max_height is the greatest announced height; pop drops the announced headers at or below the new stable height; "
+                   "insert_next_block_headers never announces a header twice",
+        level_note="NOT decided: block bodies in stable memory (BlocksCache behind Rc<RefCell<Box<dyn ..>>>: remove_from_cache, extend_cached are stand-ins), "
+                   "the cached tip depths (refresh_tip_depths_cache stores an opaque vector), the CONTENT of the per-address delta lists (only their keys), "
+                   "that unstable_blocks::push / pop call insert_outpoints / remove for exactly the blocks entering / leaving the tree (push is an assumed "
+                   "contract; pop's loop over the discarded subtree iterates an opaque `blocks()` vector), upgrades",
+        explanation="two Verus units: `ledger` verifies outpoints_cache.rs on stand-in transaction types; `core` verifies next_block_headers.rs in the same "
+                    "crate as its callers (pop, insert_next_block_header(s), is_synced), so the representation invariant is threaded through them.",
+        unverified_links=[
+            "blocks_cache.rs (BlocksCache trait object, stable-memory bodies) and BlockTree::remove_from_cache / extend_cached / tip_depths: stand-ins",
+            "unstable_blocks::push (assumed contract) and the loop of pop over `tree.blocks()` (opaque vector): that insert_outpoints / OutPointsCache::remove are called for exactly the blocks that enter / leave the tree",
+            "content of added_outpoints / removed_outpoints per address (which outpoints, in which order): only the key sets are specified",
+            "std BTreeMap::pop_first / first_key_value / last_key_value / Entry::or_insert, <[T]>::contains (assumed specifications); Ord lawfulness of the key types (axioms)",
+            "upgrades (serialisation of the caches)",
+        ],
+        assumptions=COMMON_ASSUMPTIONS + [
+            "ranges: reference counts fit u32, fewer than 2^28 transactions per block and inputs / outputs per transaction, the input values of one transaction sum below 2^64 (an `assume`, listed in trusted_base), announced heights below 2^32 - 1",
+            "rewrites R21-R26 (entry API, first/last key, position, continue elimination, by-value map iteration, slice iteration) preserve meaning; each application is listed per function",
+        ],
+    ),
 }
 
 PROPS["C11"] = dict(
@@ -306,7 +340,7 @@ PROPS["C18"] = dict(
 )
 
 PROPS["C15"] = dict(
-    verus_units=["core"],
+    verus_units=["core", "ledger"],
     technique="Verus contracts on fee_rate_per_vbyte, get_fees_per_byte, get_tx_fee_per_byte, percentiles (whole + closure bodies as slices) and the tip-keyed result cache",
     level_text="unbounded deductive proof that the fee rate is floor(1000 x fee / vsize) millisatoshi per vbyte (None for vsize 0); that for every p in 0..=100 and every "
                "n up to 2^25 the value picked is the one at the nearest-rank index max(0, ceil(p n/100) - 1), which is 0 for p = 0, n-1 for p = 100 and monotone in p "
